@@ -182,6 +182,10 @@ def locate : List Nat → Nat → Nat × Nat
   | [], x => (0, x)
   | n :: ns, x => if x < n then (0, x) else let (i, o) := locate ns (x - n); (i + 1, o)
 
+/-- `t.repeat_interleave(repeats, dim=d)` with a 1-d tensor of counts, one per position along `d` -/
+def repeatInterleaveL (rs : List Nat) (d : Nat) (t : T α) : T α :=
+  ⟨t.shape.set d rs.sum, fun c => t.get (c.modify d (fun i => (locate rs i).1))⟩
+
 /-- `torch.cat(ts, d)`; operands agree outside dim `d` -/
 def cat [Inhabited α] (ts : List (T α)) (d : Nat) : T α :=
   let sizes := ts.map (fun t => t.shape.getD d 0)
